@@ -11,6 +11,7 @@ pub mod sepinputs;
 pub mod externs;
 pub mod fnvalues;
 pub mod generics;
+pub mod helpertypes;
 pub mod illtyped;
 pub mod inference;
 pub mod isolation;
@@ -64,6 +65,7 @@ pub fn all() -> Vec<Box<dyn Family>> {
         Box::new(queryhist::QueryHistories),
         Box::new(sepinputs::SepInputs),
         Box::new(generics::Generics),
+        Box::new(helpertypes::HelperTypes),
         Box::new(methods::Methods),
         Box::new(derive::Derive),
         Box::new(names::NamesFamily),
